@@ -252,29 +252,37 @@ func (r *renderer) ttlText(v uint32) string {
 	if r.o.Plain || r.n(2) == 0 {
 		return fmt.Sprint(v)
 	}
+	// A sequence of number+unit groups in any order, units may repeat, groups may be zero, a bare
+	// number at the end counts seconds; the value is the sum of the groups.
 	r.use("ttl-units")
 	rest := uint64(v)
 	var sb strings.Builder
-	for _, u := range ttlUnits {
-		if u.c == 's' {
-			break
+	groups := 0
+	seconds := false
+	for ; groups < 6 && (rest > 0 || groups == 0 || r.n(6) == 5); groups++ {
+		u := ttlUnits[r.n(len(ttlUnits))]
+		q := rest / u.v
+		switch k := r.n(4); {
+		case q > 0 && k == 3:
+			q = uint64(r.n(int(min(q, 1000)))) + 1 // not necessarily the greedy quotient
+		case k == 2:
+			q = min(q, uint64(r.n(3))) // small or zero groups
 		}
-		if rest >= u.v && r.n(3) != 0 {
-			q := rest / u.v
-			if r.n(4) == 0 {
-				q = uint64(r.n(int(min(q, 1000)))) + 1 // not necessarily the greedy quotient
-			}
-			fmt.Fprintf(&sb, "%d%c", q, r.unitCase(u.c))
-			rest -= q * u.v
+		if u.c == 's' && q > 0 {
+			seconds = true
 		}
+		fmt.Fprintf(&sb, "%d%c", q, r.unitCase(u.c))
+		rest -= q * u.v
+	}
+	if seconds && groups > 1 {
+		r.use("ttl-units-seconds-not-last")
 	}
 	switch {
 	case rest > 0 && r.n(2) == 0:
 		fmt.Fprintf(&sb, "%d%c", rest, r.unitCase('s'))
 	case rest > 0:
+		r.use("ttl-units-bare-trailing-number")
 		fmt.Fprintf(&sb, "%d", rest) // a trailing bare number counts seconds
-	case sb.Len() == 0:
-		fmt.Fprintf(&sb, "0%c", r.unitCase("smhdw"[r.n(5)]))
 	}
 	return sb.String()
 }
